@@ -310,36 +310,63 @@ pub fn check(fam: &'static dyn Family, tier: Tier, workers: usize) -> CheckOutco
             continue;
         }
         // minimise the smallest-looking instance, confirm by replay in a fresh process
-        let v = vs.iter().min_by_key(|v| serde_json::to_string(&v.scenario).map(|s| s.len()).unwrap_or(usize::MAX)).unwrap();
-        let (min_scn, min_detail, tried) = minimise(fam, v, info.crash_isolated, &exe);
-        let hash = crate::rng::fnv(serde_json::to_string(&min_scn).unwrap().as_bytes());
-        let path = root.join("replays").join(format!("{}-{}-{:016x}.json", info.id, master, hash));
-        let file = serde_json::json!({
-            "property": info.id,
-            "clause": clause,
-            "detail": min_detail,
-            "seed": master,
-            "original_index": v.scenario.index,
-            "minimisation_candidates_tried": tried,
-            "profile": profile_name(),
-            "build": build_name(),
-            "scenario": min_scn,
-            "original_scenario": v.scenario,
-        });
-        std::fs::write(&path, serde_json::to_string_pretty(&file).unwrap()).expect("write replay");
-        // confirmation replay in a fresh process
-        let conf = Command::new(&exe).args(["replay", path.to_str().unwrap()]).env("PKSIM_PROFILE", profile_name()).output();
-        let confirmed = match &conf {
-            Ok(o) => o.status.code() == Some(1) && String::from_utf8_lossy(&o.stdout).contains("REPRODUCED"),
-            Err(_) => false,
+        let occurrences = vs.len() as u64 + more.get(clause).copied().unwrap_or(0);
+        let attempt = |v: &Violation, isolated: bool| -> Option<(std::path::PathBuf, String)> {
+            let (min_scn, min_detail, tried) = minimise(fam, v, isolated, &exe);
+            let hash = crate::rng::fnv(serde_json::to_string(&min_scn).unwrap().as_bytes());
+            let path = root.join("replays").join(format!("{}-{}-{:016x}.json", info.id, master, hash));
+            let file = serde_json::json!({
+                "property": info.id,
+                "clause": clause,
+                "detail": min_detail,
+                "seed": master,
+                "original_index": v.scenario.index,
+                "minimisation_candidates_tried": tried,
+                "profile": profile_name(),
+                "build": build_name(),
+                "scenario": min_scn,
+                "original_scenario": v.scenario,
+            });
+            std::fs::write(&path, serde_json::to_string_pretty(&file).unwrap()).expect("write replay");
+            // confirmation replay in a fresh process
+            let conf = Command::new(&exe).args(["replay", path.to_str().unwrap()]).env("PKSIM_PROFILE", profile_name()).output();
+            let confirmed = match &conf {
+                Ok(o) => o.status.code() == Some(1) && String::from_utf8_lossy(&o.stdout).contains("REPRODUCED"),
+                Err(_) => false,
+            };
+            if confirmed {
+                Some((path, min_detail))
+            } else {
+                let _ = std::fs::remove_file(&path);
+                None
+            }
         };
-        if confirmed {
-            println!("VIOLATION property={} replay={}", info.id, path.display());
-            println!("  clause: {clause}\n  detail: {min_detail}\n  occurrences: {}", vs.len() as u64 + more.get(clause).copied().unwrap_or(0));
-            reported.push(serde_json::json!({"clause": clause, "runs": vs.len() as u64 + more.get(clause).copied().unwrap_or(0), "replay": path, "detail": min_detail}));
-            exit = 1;
-        } else {
-            harness.push(format!("violation of {clause} did not reproduce in a fresh process ({}); treated as a harness error", path.display()));
+        let mut by_size: Vec<&Violation> = vs.iter().collect();
+        by_size.sort_by_key(|v| serde_json::to_string(&v.scenario).map(|s| s.len()).unwrap_or(usize::MAX));
+        let mut found = attempt(by_size[0], info.crash_isolated);
+        if found.is_none() {
+            // The code under test may keep state for the life of the process (a static table, a cache): then
+            // a worker that judges thousands of scenarios reports some whose failure was prepared by earlier
+            // ones and does not replay alone. Look for an instance that fails in a process of its own and
+            // minimise that one with every candidate in a fresh process.
+            for cand in by_size.iter().take(256) {
+                let alone = matches!(exec_one_isolated(&exe, &cand.scenario), ExecVerdict::Clauses(cs) if cs.iter().any(|(c, _)| c == clause));
+                if alone {
+                    found = attempt(cand, true);
+                    if found.is_some() {
+                        break;
+                    }
+                }
+            }
+        }
+        match found {
+            Some((path, min_detail)) => {
+                println!("VIOLATION property={} replay={}", info.id, path.display());
+                println!("  clause: {clause}\n  detail: {min_detail}\n  occurrences: {occurrences}");
+                reported.push(serde_json::json!({"clause": clause, "runs": occurrences, "replay": path, "detail": min_detail}));
+                exit = 1;
+            }
+            None => harness.push(format!("violation of {clause} ({occurrences} occurrences) did not reproduce in a fresh process (every reported instance tried alone); treated as a harness error")),
         }
     }
     for h in &harness {
